@@ -155,6 +155,18 @@ Proof.
   - unfold vdot, w_b1, w_b2; cbn [vx vy vz]. lra.
 Qed.
 
+(* ... including "the raised beam is not the zero vector", for every h, m_n > 0 and wavelength *)
+Example C04_nonvacuous_raised : forall h mn l, h > 0 -> mn > 0 ->
+  0 < vnorm (raised (vscal 1 w_b2) (vscal 1 w_g) (drop h mn (vscal 1 w_b2) (vscal 1 w_g) l)).
+Proof.
+  intros h mn l Hh Hm. rewrite !vscal_one.
+  assert (Hg : 0 < vnorm w_g) by (rewrite w_g_norm; lra).
+  apply raised_nonzero_above; try assumption.
+  - apply vnorm_pos_iff. unfold vsq, w_b2; cbn [vx vy vz]. lra.
+  - rewrite w_ey. unfold vdot, w_b2; cbn [vx vy vz]. lra.
+  - unfold drop. apply delta_nonneg; try assumption. apply vnorm_nonneg.
+Qed.
+
 Print Assumptions C04_drop_formula.
 Print Assumptions C04_generic_is_construction.
 Print Assumptions C04_orthogonal_is_construction.
